@@ -1,1 +1,936 @@
-fn main() { let _ = c04_realstw::runtime::get_runtime; }
+//! C04 harness: the REAL stop-the-world protocol (safepoint.rs + threads.rs of /repo, compiled unmodified
+//! in `c04_realstw`) driven by managed-thread scripts under the deterministic scheduler of `verif_sync_shim`.
+//!
+//!   h_c04 run <quick|thorough> <outdir> [corpus-file]
+//!        explores schedules (corpus first, then DFS with a preemption bound per built-in scenario, then
+//!        seeded random ones over random scenarios); writes, line-aligned, one line per DISTINCT trace:
+//!          <outdir>/traces.req     request for the Lean driver drv_c04 (the linearised event trace)
+//!          <outdir>/expected.resp  what drv_c04 must answer (computed from the real objects' final values)
+//!          <outdir>/sched.txt      `<scenario> <spurious budget> <choice list>`  = the replay of that trace
+//!        and <outdir>/violations.jsonl (oracle failures on the real code); prints a JSON summary.
+//!   h_c04 replay <scenario> <spurious budget> <choice list|->
+//!        runs exactly one schedule; prints request line, expected response, status, oracle verdicts.
+//!
+//! scenario syntax:  script0/script1/…   script = ops separated by `.`, `-` = empty script
+//!   shim thread 0 (the Dora main thread, registered like `execute_on_main`) runs script 0; `c<j>` spawns a
+//!   child running script j (each j ≥ 1 at most once).  Every thread ends with the exit sequence
+//!   (`remove_current_thread`).  ops (what a managed thread does between two safepoint polls):
+//!     t      touch the managed heap (`fadd H`) — legal in the mutator region only
+//!     p      safepoint poll: load the own state byte, `safepoint_slow()` if it is not Running
+//!     n      native call: `parked_scope(|| yield)`
+//!     s, s2  `stop_the_world(rt, op)`, the operation writes the heap once / twice (`store H`)
+//!     c<j>   spawn: `DoraThread::new(rt, Parked)`, `add_thread`, OS spawn; child: `init_current_thread`, `unpark`
+//! Every random choice derives from VERIF_SEED.
+use c04_realstw::runtime::{clear_runtime, get_runtime, set_runtime, Runtime};
+use c04_realstw::safepoint::{safepoint_slow, stop_the_world};
+use c04_realstw::threads::{current_thread, deinit_current_thread, init_current_thread, parked_scope, DoraThread};
+use dora_compiler::ThreadState;
+use hutil::Rng;
+use std::cell::Cell;
+use std::collections::{BTreeMap, BTreeSet, HashSet};
+use std::io::Write;
+use std::sync::atomic::{AtomicBool, AtomicUsize as StdAtomicUsize, Ordering as O};
+use std::sync::{Arc, Mutex as StdMutex};
+use verif_sync_shim as shim;
+use verif_sync_shim::explore::{Dfs, Pct, Replay, Uniform};
+use verif_sync_shim::{Chooser, Config, Event, Obj, RunResult, Status};
+
+#[derive(Clone, Debug, PartialEq)]
+enum Op {
+    Touch,
+    Poll,
+    Native,
+    Stw(usize),
+    Spawn(usize),
+}
+
+#[derive(Clone, Debug)]
+struct Scenario {
+    scripts: Vec<Vec<Op>>,
+}
+
+impl Scenario {
+    fn parse(s: &str) -> Result<Scenario, String> {
+        let mut scripts = Vec::new();
+        for txt in s.split('/') {
+            let mut sc = Vec::new();
+            for a in txt.split('.') {
+                if a.is_empty() || a == "-" {
+                    continue;
+                }
+                sc.push(match a {
+                    "t" => Op::Touch,
+                    "p" => Op::Poll,
+                    "n" => Op::Native,
+                    "s" | "s1" => Op::Stw(1),
+                    "s2" => Op::Stw(2),
+                    _ if a.starts_with('c') => Op::Spawn(a[1..].parse().map_err(|_| format!("op {}", a))?),
+                    _ => return Err(format!("op {}", a)),
+                });
+            }
+            if sc.len() > 4 {
+                return Err("more than 4 ops in a script".into());
+            }
+            scripts.push(sc);
+        }
+        let n = scripts.len();
+        if n == 0 || n > 4 {
+            return Err("1-4 threads".into());
+        }
+        let mut seen = vec![false; n];
+        for sc in &scripts {
+            for op in sc {
+                if let Op::Spawn(j) = op {
+                    if *j == 0 || *j >= n || seen[*j] {
+                        return Err(format!("c{}: no such script, or spawned twice", j));
+                    }
+                    seen[*j] = true;
+                }
+            }
+        }
+        Ok(Scenario { scripts })
+    }
+
+    fn show(&self) -> String {
+        self.scripts
+            .iter()
+            .map(|sc| {
+                if sc.is_empty() {
+                    "-".to_string()
+                } else {
+                    sc.iter()
+                        .map(|op| match op {
+                            Op::Touch => "t".to_string(),
+                            Op::Poll => "p".to_string(),
+                            Op::Native => "n".to_string(),
+                            Op::Stw(1) => "s".to_string(),
+                            Op::Stw(k) => format!("s{}", k),
+                            Op::Spawn(j) => format!("c{}", j),
+                        })
+                        .collect::<Vec<_>>()
+                        .join(".")
+                }
+            })
+            .collect::<Vec<_>>()
+            .join("/")
+    }
+
+    /// scripts that some run can reach (0 and everything spawned transitively)
+    fn reachable(&self) -> Vec<bool> {
+        let mut r = vec![false; self.scripts.len()];
+        let mut todo = vec![0usize];
+        while let Some(k) = todo.pop() {
+            if r[k] {
+                continue;
+            }
+            r[k] = true;
+            for op in &self.scripts[k] {
+                if let Op::Spawn(j) = op {
+                    todo.push(*j);
+                }
+            }
+        }
+        r
+    }
+}
+
+/// One `DoraThread` created in this run.
+#[derive(Clone, Debug)]
+struct Reg {
+    script: usize,
+    ptr: usize,
+    state_id: u32,
+    shim_tid: Option<usize>,
+}
+
+#[derive(Default, Clone, Debug)]
+struct Ids {
+    h: u32,
+    l: u32,
+    j: u32,
+    x: u32,
+    rt: u32,
+}
+
+/// Oracle state and bookkeeping: plain std objects, invisible to the scheduler.
+struct Shared {
+    sc: Arc<Scenario>,
+    /// by script index: the thread is in its mutator region (may touch the managed heap at any moment)
+    mutating: Vec<AtomicBool>,
+    finished: Vec<AtomicBool>,
+    in_operation: AtomicBool,
+    ops_done: StdAtomicUsize,
+    dead: StdAtomicUsize,
+    registry: StdMutex<Vec<Reg>>,
+    ids: StdMutex<Ids>,
+    violations: StdMutex<Vec<(String, String)>>,
+}
+
+impl Shared {
+    fn violation(&self, key: &str, text: String) {
+        let mut v = self.violations.lock().unwrap();
+        if v.len() < 8 {
+            v.push((key.to_string(), text));
+        }
+    }
+    fn script_of(&self, p: *const DoraThread) -> Option<usize> {
+        self.registry.lock().unwrap().iter().find(|r| r.ptr == p as usize).map(|r| r.script)
+    }
+    fn register(&self, script: usize, th: &Arc<DoraThread>, shim_tid: Option<usize>) {
+        self.registry.lock().unwrap().push(Reg { script, ptr: Arc::as_ptr(th) as usize, state_id: th.tld.state.id(), shim_tid });
+    }
+
+    /// The property, checked on the real objects from inside the safepoint operation (no events: `peek`).
+    fn check_world_stopped(&self, me: usize, threads: &[Arc<DoraThread>], whence: &str) {
+        let cur = current_thread() as *const DoraThread;
+        for t in threads {
+            let p = Arc::as_ptr(t);
+            if p == cur {
+                continue;
+            }
+            let st = t.tld.state.peek();
+            let who = self.script_of(p);
+            if st != ThreadState::ParkedSafepointRequested as u8 && st != ThreadState::Safepoint as u8 {
+                self.violation(
+                    "oracle:state-during-operation",
+                    format!("{} of the operation of thread(script {}): registered thread (script {:?}) has state byte {} (neither ParkedSafepointRequested nor Safepoint)", whence, me, who, st),
+                );
+            }
+        }
+        for (u, m) in self.mutating.iter().enumerate() {
+            if u != me && m.load(O::SeqCst) {
+                self.violation(
+                    "oracle:mutating-during-operation",
+                    format!("{} of the operation of thread(script {}): thread(script {}) is in its mutator region (running managed code)", whence, me, u),
+                );
+            }
+        }
+    }
+}
+
+thread_local! {
+    /// the thread is inside `safepoint_slow` (an `extern "C"` frame: a panic must not unwind through it)
+    static IN_EXTERN_C: Cell<bool> = const { Cell::new(false) };
+}
+
+/// `file:line` + message of the first panic of the current run (filled by the panic hook)
+static LAST_PANIC: StdMutex<Option<(String, String)>> = StdMutex::new(None);
+
+const K_POLL: Obj = Obj::User(0);
+const K_NATIVE: Obj = Obj::User(1);
+const K_STW: Obj = Obj::User(2);
+const K_SPAWN: Obj = Obj::User(3);
+const K_EXIT: Obj = Obj::User(4);
+const K_INIT: Obj = Obj::User(99);
+
+/// What one managed thread does. `k` = script index (oracle bookkeeping); the model's thread id is the shim tid.
+fn run_script(k: usize, sh: &Arc<Shared>, h: &Arc<shim::AtomicUsize>) {
+    let rt: &'static Runtime = get_runtime();
+    let thread = current_thread();
+    let me_tid = shim::current_tid();
+    let mut children = Vec::new();
+    for op in sh.sc.scripts[k].clone() {
+        match op {
+            Op::Touch => {
+                h.fetch_add(1, shim::Ordering::SeqCst);
+                // still the same scheduling step as the access itself
+                if sh.in_operation.load(O::SeqCst) {
+                    sh.violation(
+                        "oracle:heap-touched-during-operation",
+                        format!("thread {} (script {}) accessed the managed heap while a safepoint operation was running", me_tid, k),
+                    );
+                }
+            }
+            Op::Poll => {
+                // the compiled poll: `cmp byte [tld+state], 0; jne slow`
+                shim::mark("beg", K_POLL, None, None);
+                let s = thread.tld.state.load(shim::Ordering::Relaxed);
+                if s != 0 {
+                    sh.mutating[k].store(false, O::SeqCst);
+                    shim::set_no_unwind(true);
+                    IN_EXTERN_C.with(|c| c.set(true));
+                    safepoint_slow();
+                    IN_EXTERN_C.with(|c| c.set(false));
+                    shim::set_no_unwind(false);
+                    sh.mutating[k].store(true, O::SeqCst);
+                }
+            }
+            Op::Native => {
+                shim::mark("beg", K_NATIVE, None, None);
+                sh.mutating[k].store(false, O::SeqCst);
+                parked_scope(|| shim::yield_now());
+                sh.mutating[k].store(true, O::SeqCst);
+            }
+            Op::Stw(writes) => {
+                shim::mark("beg", K_STW, None, None);
+                sh.mutating[k].store(false, O::SeqCst);
+                stop_the_world(rt, |threads| {
+                    if sh.in_operation.swap(true, O::SeqCst) {
+                        sh.violation("oracle:overlapping-operations", format!("thread {} (script {}) runs a safepoint operation while another one is running", me_tid, k));
+                    }
+                    sh.check_world_stopped(k, threads, "start");
+                    for _ in 0..writes {
+                        h.store(me_tid, shim::Ordering::SeqCst);
+                        sh.check_world_stopped(k, threads, "inside");
+                    }
+                    sh.in_operation.store(false, O::SeqCst);
+                    sh.ops_done.fetch_add(1, O::SeqCst);
+                });
+                sh.mutating[k].store(true, O::SeqCst);
+            }
+            Op::Spawn(j) => {
+                // stdlib.rs `spawn_thread`
+                shim::mark("beg", K_SPAWN, None, None);
+                let th = DoraThread::new(rt, ThreadState::Parked);
+                sh.register(j, &th, None);
+                sh.mutating[k].store(false, O::SeqCst);
+                rt.threads.add_thread(th.clone());
+                sh.mutating[k].store(true, O::SeqCst);
+                let (sh2, h2) = (sh.clone(), h.clone());
+                let jh = shim::spawn(move || {
+                    // the closure of `spawn_thread` + `thread_main`
+                    let thread = init_current_thread(th);
+                    thread.unpark(get_runtime());
+                    sh2.mutating[j].store(true, O::SeqCst);
+                    run_script(j, &sh2, &h2);
+                });
+                if let Some(r) = sh.registry.lock().unwrap().iter_mut().find(|r| r.script == j) {
+                    r.shim_tid = Some(jh.tid());
+                }
+                children.push(jh);
+            }
+        }
+    }
+    // `thread_main` / `execute_on_main`: leave
+    shim::mark("beg", K_EXIT, None, None);
+    sh.mutating[k].store(false, O::SeqCst);
+    rt.threads.remove_current_thread();
+    sh.dead.fetch_add(1, O::SeqCst);
+    deinit_current_thread();
+    sh.finished[k].store(true, O::SeqCst);
+    for c in children {
+        let _ = c.join();
+    }
+}
+
+struct Outcome {
+    res: RunResult,
+    request: String,
+    expected: String,
+    violations: Vec<(String, String)>,
+    feats: Feats,
+}
+
+#[derive(Default, Clone)]
+struct Feats {
+    multi_op: bool,
+    slow: bool,
+    park_slow: usize,
+    unpark_slow: usize,
+    safepoint_slow: usize,
+    wait_w: usize,
+    wait_n: usize,
+    requesters: usize,
+    spawns: usize,
+    swap_remove: usize,
+    spurious: usize,
+    single_shortcut: usize,
+    ops: usize,
+    events: usize,
+}
+
+fn run_one(sc: &Arc<Scenario>, spur: usize, chooser: Box<dyn Chooser>) -> Outcome {
+    let cfg = Config { max_steps: 4000, spurious_budget: spur };
+    let n = sc.scripts.len();
+    let sh = Arc::new(Shared {
+        sc: sc.clone(),
+        mutating: (0..n).map(|_| AtomicBool::new(false)).collect(),
+        finished: (0..n).map(|_| AtomicBool::new(false)).collect(),
+        in_operation: AtomicBool::new(false),
+        ops_done: StdAtomicUsize::new(0),
+        dead: StdAtomicUsize::new(0),
+        registry: StdMutex::new(Vec::new()),
+        ids: StdMutex::new(Ids::default()),
+        violations: StdMutex::new(Vec::new()),
+    });
+    *LAST_PANIC.lock().unwrap() = None;
+    let sh2 = sh.clone();
+    let res = shim::run(&cfg, chooser, move || {
+        // construction order fixes the object ids: H, then Runtime::new (Threads::new: list mutex, cv_join,
+        // next_thread_id, Barrier { data, cv_wakeup, cv_notify }; then Runtime::state)
+        let h = Arc::new(shim::AtomicUsize::new(0));
+        let _ = set_runtime(Runtime::new());
+        let rt = get_runtime();
+        *sh2.ids.lock().unwrap() = Ids { h: h.id(), l: rt.threads.threads.id(), j: rt.threads.cv_join.id(), x: rt.threads.next_thread_id.id(), rt: rt.state.id() };
+        // runtime.rs `execute_on_main`
+        let native_thread = DoraThread::new(rt, ThreadState::Running);
+        sh2.register(0, &native_thread, Some(0));
+        init_current_thread(native_thread.clone());
+        rt.threads.add_main_thread(native_thread.clone());
+        drop(native_thread);
+        // the model's initial state is the state reached here
+        shim::mark("init", K_INIT, None, None);
+        sh2.mutating[0].store(true, O::SeqCst);
+        run_script(0, &sh2, &h);
+    });
+    // no thread of this schedule is left (threads parked for ever inside `safepoint_slow` never wake up)
+    drop(clear_runtime());
+
+    let ids = sh.ids.lock().unwrap().clone();
+    // model thread ids (= shim tids) of the DoraThreads; a thread created but not spawned before the run ended gets
+    // a free slot (the Barrier's mutex / condvars are private fields: B = L + 1, W = J + 1, N = J + 2 by the
+    // construction order in `Threads::new` / `Barrier::new`; `index_in_thread_list` = state id + 1 by the
+    // construction order in `DoraThread::with_id`: … tld.concurrent_marking, tld.state, [join/blocking mutexes], index)
+    let mut regs = sh.registry.lock().unwrap().clone();
+    let mut used: BTreeSet<usize> = regs.iter().filter_map(|r| r.shim_tid).collect();
+    for r in regs.iter_mut() {
+        if r.shim_tid.is_none() {
+            let free = (0..n).find(|u| !used.contains(u)).unwrap_or(n);
+            used.insert(free);
+            r.shim_tid = Some(free);
+        }
+    }
+    let role = |o: Obj| -> String {
+        match o {
+            Obj::None => "-".to_string(),
+            Obj::Atomic(i) if i == ids.h => "H".to_string(),
+            Obj::Atomic(i) if i == ids.x => "X".to_string(),
+            Obj::Atomic(i) if i == ids.rt => "RT".to_string(),
+            Obj::Atomic(i) => {
+                if let Some(r) = regs.iter().find(|r| r.state_id == i) {
+                    format!("S{}", r.shim_tid.unwrap())
+                } else if let Some(r) = regs.iter().find(|r| r.state_id + 1 == i) {
+                    format!("I{}", r.shim_tid.unwrap())
+                } else {
+                    format!("?a{}", i)
+                }
+            }
+            Obj::Mutex(i) if i == ids.l => "L".to_string(),
+            Obj::Mutex(i) if i == ids.l + 1 => "B".to_string(),
+            Obj::Mutex(i) => format!("?m{}", i),
+            Obj::Condvar(i) if i == ids.j => "J".to_string(),
+            Obj::Condvar(i) if i == ids.j + 1 => "W".to_string(),
+            Obj::Condvar(i) if i == ids.j + 2 => "N".to_string(),
+            Obj::Condvar(i) => format!("?c{}", i),
+            Obj::Thread(u) => format!("T{}", u),
+            Obj::User(k) => format!("K{}", k),
+        }
+    };
+    // the events of `execute_on_main` up to `add_main_thread` precede the model's initial state; they must be
+    // exactly: fadd X (DoraThread::new), load S0 (assert is_running), lock L, store I0, unlock L
+    let init_pos = res.events.iter().position(|e| e.op == "init");
+    let skip = match init_pos {
+        Some(p) => {
+            let pre: Vec<String> = res.events[..p].iter().filter(|e| e.op != "start").map(|e| format!("{},{},{}", e.tid, e.op, role(e.obj))).collect();
+            if pre == ["0,fadd,X", "0,load,S0", "0,lock,L", "0,store,I0", "0,unlock,L"] { p + 1 } else { 0 }
+        }
+        None => 0,
+    };
+    let mut feats = Feats::default();
+    let mut toks: Vec<String> = Vec::new();
+    let num = |x: Option<u64>| x.map(|v| v.to_string()).unwrap_or_else(|| "-".to_string());
+    let mut for_tids: BTreeSet<usize> = BTreeSet::new();
+    let mut pending_multi = false;
+    let mut last_op: BTreeMap<usize, String> = BTreeMap::new();
+    let mut stw_completed = 0usize;
+    for e in res.events.iter().skip(skip) {
+        let Event { tid, op, obj, rd, wr } = e;
+        if matches!(*op, "start" | "exit" | "join" | "init") {
+            continue;
+        }
+        let r = role(*obj);
+        match *op {
+            "for" => {
+                for_tids.insert(*tid);
+                if r != format!("S{}", tid) {
+                    pending_multi = true;
+                }
+            }
+            "swap" if r == "RT" && *wr == Some(0) => {
+                stw_completed += 1;
+                if pending_multi {
+                    feats.multi_op = true;
+                } else {
+                    feats.single_shortcut += 1;
+                }
+                pending_multi = false;
+            }
+            "cas" if wr.is_none() => {
+                feats.slow = true;
+                if *rd == Some(3) {
+                    feats.unpark_slow += 1;
+                }
+            }
+            "cas" if *rd == Some(2) && *wr == Some(3) => feats.park_slow += 1,
+            "swap" if r.starts_with('S') && *wr == Some(4) => feats.safepoint_slow += 1,
+            "wait" if r == "W" => {
+                feats.slow = true;
+                feats.wait_w += 1
+            }
+            "wait" if r == "N" => feats.wait_n += 1,
+            "spawn" => feats.spawns += 1,
+            "spur" => feats.spurious += 1,
+            "store" if r.starts_with('I') && last_op.get(tid).map(|s| s.as_str()) == Some("load I") => feats.swap_remove += 1,
+            _ => {}
+        }
+        last_op.insert(*tid, format!("{} {}", op, &r[..1.min(r.len())]));
+        toks.push(format!("{},{},{},{},{}", tid, op, r, num(*rd), num(*wr)));
+    }
+    feats.requesters = for_tids.len();
+    feats.ops = stw_completed;
+    feats.events = toks.len();
+    let request = format!("{} | {}", n, toks.join(" "));
+    let at = |i: u32| res.atomics.get(i as usize).copied().unwrap_or(u64::MAX);
+    let st: Vec<String> = (0..n)
+        .map(|u| match regs.iter().find(|r| r.shim_tid == Some(u)) {
+            Some(r) => at(r.state_id).to_string(),
+            None => "1".to_string(),
+        })
+        .collect();
+    let expected = format!("accept {} dead={} st={} stw={}", toks.len(), sh.dead.load(O::SeqCst), st.join(","), stw_completed);
+
+    let mut violations = sh.violations.lock().unwrap().clone();
+    match &res.status {
+        Status::Completed => {
+            let reach = sc.reachable();
+            let want_ops: usize = sc.scripts.iter().enumerate().filter(|(k, _)| reach[*k]).map(|(_, s)| s.iter().filter(|o| matches!(o, Op::Stw(_))).count()).sum();
+            let unfinished: Vec<usize> = (0..n).filter(|&k| reach[k] && !sh.finished[k].load(O::SeqCst)).collect();
+            if !unfinished.is_empty() || sh.ops_done.load(O::SeqCst) != want_ops || stw_completed != want_ops {
+                violations.push((
+                    "oracle:lost-thread".into(),
+                    format!("run completed but scripts {:?} did not finish / {} operations ran ({} completed) instead of {}", unfinished, sh.ops_done.load(O::SeqCst), stw_completed, want_ops),
+                ));
+            }
+        }
+        Status::Deadlock(who) => violations.push(("oracle:deadlock".into(), format!("deadlock: no runnable thread, unfinished: {:?}", who))),
+        Status::Panic { tid, msg } => {
+            let lp = LAST_PANIC.lock().unwrap().clone();
+            let (site, m) = match lp {
+                Some((site, m)) => (site, m),
+                None => ("unknown".to_string(), msg.clone()),
+            };
+            violations.push((format!("oracle:assert-{}", site), format!("thread {} panicked at {}: {}", tid, site, m.lines().next().unwrap_or(""))))
+        }
+        Status::StepLimit => violations.push(("oracle:step-limit".into(), "run exceeded the step limit (a thread spins)".into())),
+    }
+    Outcome { res, request, expected, violations, feats }
+}
+
+fn jstr(s: &str) -> String {
+    let mut o = String::from("\"");
+    for c in s.chars() {
+        match c {
+            '"' => o.push_str("\\\""),
+            '\\' => o.push_str("\\\\"),
+            '\n' => o.push_str("\\n"),
+            c if (c as u32) < 0x20 => o.push_str(&format!("\\u{:04x}", c as u32)),
+            c => o.push(c),
+        }
+    }
+    o.push('"');
+    o
+}
+
+/// trailing zeros are dropped: a replay continues with "always choose 0" after the end of the list
+fn choices_str(c: &[usize]) -> String {
+    let c = &c[..c.iter().rposition(|&x| x != 0).map(|p| p + 1).unwrap_or(0)];
+    if c.is_empty() {
+        "-".to_string()
+    } else {
+        c.iter().map(|x| x.to_string()).collect::<Vec<_>>().join(",")
+    }
+}
+
+fn parse_choices(s: &str) -> Vec<usize> {
+    if s == "-" {
+        Vec::new()
+    } else {
+        s.split(',').filter_map(|x| x.parse().ok()).collect()
+    }
+}
+
+struct Sink {
+    req: std::io::BufWriter<std::fs::File>,
+    exp: std::io::BufWriter<std::fs::File>,
+    sch: std::io::BufWriter<std::fs::File>,
+    vio: std::io::BufWriter<std::fs::File>,
+    seen: HashSet<u64>,
+    schedules: usize,
+    distinct: usize,
+    nontrivial: usize,
+    violations: usize,
+    violating_schedules: usize,
+    hist: BTreeMap<String, usize>,
+    samples: Vec<String>,
+    max_events: usize,
+}
+
+fn fnv(s: &str) -> u64 {
+    let mut h: u64 = 0xcbf29ce484222325;
+    for b in s.bytes() {
+        h ^= b as u64;
+        h = h.wrapping_mul(0x100000001b3);
+    }
+    h
+}
+
+/// An aborted run may leak OS threads (see `shim::set_no_unwind`), so exploration stops after this many
+/// violating schedules — the check reports at most three per key anyway.
+const MAX_VIOLATING_SCHEDULES: usize = 200;
+
+impl Sink {
+    fn bump(&mut self, k: &str, by: usize) {
+        *self.hist.entry(k.to_string()).or_insert(0) += by;
+    }
+    fn full(&self) -> bool {
+        self.violating_schedules >= MAX_VIOLATING_SCHEDULES
+    }
+    fn take(&mut self, sc: &Scenario, spur: usize, mode: &str, o: &Outcome) {
+        self.schedules += 1;
+        self.bump(&format!("schedules_{}", mode), 1);
+        let sched = format!("{} {} {}", sc.show(), spur, choices_str(&o.res.choice_list()));
+        if !o.violations.is_empty() {
+            self.violating_schedules += 1;
+        }
+        for (key, text) in &o.violations {
+            self.violations += 1;
+            writeln!(
+                self.vio,
+                "{{\"key\":{},\"text\":{},\"scenario\":{},\"spurious_budget\":{},\"choices\":{},\"mode\":{},\"trace\":{}}}",
+                jstr(key),
+                jstr(text),
+                jstr(&sc.show()),
+                spur,
+                jstr(&choices_str(&o.res.choice_list())),
+                jstr(mode),
+                jstr(&o.request)
+            )
+            .unwrap();
+        }
+        if !self.seen.insert(fnv(&o.request)) {
+            return;
+        }
+        self.distinct += 1;
+        let f = &o.feats;
+        let nontrivial = f.multi_op && f.slow;
+        if nontrivial {
+            self.nontrivial += 1;
+        }
+        self.bump(&format!("traces_threads_{}", sc.scripts.len()), 1);
+        let flags: [(&str, bool); 12] = [
+            ("traces_with_multi_thread_operation", f.multi_op),
+            ("traces_with_single_thread_shortcut", f.single_shortcut > 0),
+            ("traces_with_park_slow", f.park_slow > 0),
+            ("traces_with_unpark_slow_wait_in_unpark", f.unpark_slow > 0),
+            ("traces_with_safepoint_slow", f.safepoint_slow > 0),
+            ("traces_with_wait_on_cv_wakeup", f.wait_w > 0),
+            ("traces_initiator_waited_on_cv_notify", f.wait_n > 0),
+            ("traces_with_concurrent_requesters", f.requesters > 1),
+            ("traces_with_spawn", f.spawns > 0),
+            ("traces_with_swap_remove", f.swap_remove > 0),
+            ("traces_with_spurious_wakeup", f.spurious > 0),
+            ("traces_not_completed", o.res.status != Status::Completed),
+        ];
+        for (k, b) in flags {
+            if b {
+                self.bump(k, 1);
+            }
+        }
+        self.bump("operations_completed", f.ops);
+        self.bump("events", f.events);
+        self.max_events = self.max_events.max(f.events);
+        if nontrivial && self.samples.len() < 3 && f.park_slow + f.unpark_slow > 0 && f.events < 120 {
+            self.samples.push(format!("{{\"schedule\":{},\"trace\":{},\"expected\":{}}}", jstr(&sched), jstr(&o.request), jstr(&o.expected)));
+        }
+        writeln!(self.req, "{}", o.request).unwrap();
+        writeln!(self.exp, "{}", o.expected).unwrap();
+        writeln!(self.sch, "{}", sched).unwrap();
+    }
+}
+
+fn scenarios(tier: &str) -> Vec<(&'static str, usize, usize, usize)> {
+    // (scenario, preemption bound, spurious budget, cap on DFS runs)
+    let quick: Vec<(&'static str, usize, usize, usize)> = vec![
+        // single-thread shortcut
+        ("t.s.p.t", 2, 0, 100),
+        // one requester + one poller
+        ("c1.t.s.t/t.p.t.p", 2, 0, 6000),
+        ("c1.s2/p.t.p", 2, 1, 6000),
+        // requester vs. thread in a native call (park / unpark racing with fetch_or)
+        ("c1.s.t/n.t.n", 2, 0, 6000),
+        ("c1.s/n.p", 2, 1, 5000),
+        // two concurrent requesters
+        ("c1.s.t/s.t", 2, 0, 6000),
+        ("c1.s.p/p.s.n", 1, 1, 4000),
+        // stop-the-world racing with spawn (add_thread) and with exit (remove_current_thread)
+        ("c1.c2.p/s.t/t", 2, 0, 6000),
+        ("c1.p/c2.s/p.t", 1, 0, 4000),
+        ("c1.c2/-/s.p", 2, 0, 6000),
+        // a non-last thread leaves (swap-remove) while the third requests
+        ("c1.c2.n/-/s", 2, 0, 15000),
+        ("c1.c2.t/p/n.s", 1, 0, 4000),
+        // 3-4 threads mixed
+        ("c1.c2.s/p.n.t/t.p.s", 1, 0, 4000),
+        ("c1.c2.c3/p/n/s", 1, 0, 8000),
+        ("c1.s/c2.p/c3.n/s", 1, 0, 4000),
+    ];
+    if tier == "quick" {
+        return quick;
+    }
+    let mut v = quick;
+    v.extend(vec![
+        ("c1.t.s.t/t.p.t.p", 3, 1, 40000),
+        ("c1.s.t/n.t.n", 3, 1, 40000),
+        ("c1.s.t/s.t", 3, 1, 40000),
+        ("c1.c2.p/s.t/t", 3, 0, 40000),
+        ("c1.c2/-/s.p", 3, 1, 40000),
+        ("c1.c2.n/-/s", 3, 1, 40000),
+        ("c1.c2.s/p.n.t/t.p.s", 2, 1, 40000),
+        ("c1.c2.c3.s/p/n/s", 1, 0, 40000),
+        ("c1.c2.c3/p/n/s", 2, 0, 40000),
+        ("c1.s.n/c2.p.s/c3.n/s.p", 2, 0, 40000),
+        ("c1.c2.c3.p/s.t.p/n.s/p.n.t", 2, 1, 40000),
+    ]);
+    v
+}
+
+fn random_scenario(r: &mut Rng) -> Scenario {
+    let n = r.range(1, 4) as usize;
+    let mut scripts: Vec<Vec<Op>> = vec![Vec::new(); n];
+    for j in 1..n {
+        // the parent has a smaller index (no cycles); at most 4 ops per script
+        let mut parent = r.below(j as u64) as usize;
+        if scripts[parent].len() >= 3 {
+            parent = (0..j).find(|&p| scripts[p].len() < 3).unwrap_or(0);
+        }
+        scripts[parent].push(Op::Spawn(j));
+    }
+    let mut any_stw = false;
+    for k in 0..n {
+        let extra = r.below((5 - scripts[k].len()) as u64) as usize;
+        for _ in 0..extra {
+            let op = match r.below(7) {
+                0 | 1 => Op::Poll,
+                2 => Op::Touch,
+                3 => Op::Native,
+                4 | 5 => {
+                    any_stw = true;
+                    Op::Stw(1 + r.below(2) as usize)
+                }
+                _ => Op::Poll,
+            };
+            // anywhere, also before / between the spawns
+            let pos = r.below(scripts[k].len() as u64 + 1) as usize;
+            scripts[k].insert(pos, op);
+        }
+    }
+    if !any_stw {
+        let k = r.below(n as u64) as usize;
+        if scripts[k].len() >= 4 {
+            let pos = scripts[k].iter().position(|o| !matches!(o, Op::Spawn(_)));
+            match pos {
+                Some(p) => scripts[k][p] = Op::Stw(1),
+                None => scripts[n - 1].push(Op::Stw(1)),
+            }
+        } else {
+            scripts[k].push(Op::Stw(1));
+        }
+    }
+    Scenario { scripts }
+}
+
+fn install_panic_hook() {
+    std::panic::set_hook(Box::new(|info| {
+        let msg = if let Some(s) = info.payload().downcast_ref::<String>() {
+            s.clone()
+        } else if let Some(s) = info.payload().downcast_ref::<&str>() {
+            s.to_string()
+        } else {
+            "?".to_string()
+        };
+        let site = match info.location() {
+            Some(l) => format!("{}-{}", l.file().rsplit('/').next().unwrap_or("?"), l.line()),
+            None => "unknown".to_string(),
+        };
+        {
+            let mut lp = LAST_PANIC.lock().unwrap_or_else(|e| e.into_inner());
+            if lp.is_none() {
+                *lp = Some((site, msg.clone()));
+            }
+        }
+        if IN_EXTERN_C.with(|c| c.get()) {
+            // an assert of safepoint_slow / wait_in_safepoint / unpark failed below the `extern "C"` frame:
+            // unwinding would abort the process; end the run here instead
+            shim::fail_current_thread(msg);
+        }
+    }));
+}
+
+fn main() {
+    install_panic_hook();
+    if std::env::var("VERIF_NO_PIN").is_err() {
+        shim::pin_to_current_cpu();
+    }
+    let args: Vec<String> = std::env::args().collect();
+    match args.get(1).map(|s| s.as_str()) {
+        Some("replay") if args.len() >= 5 => {
+            let sc = Arc::new(Scenario::parse(&args[2]).expect("scenario"));
+            let spur: usize = args[3].parse().expect("spurious budget");
+            let ch = parse_choices(&args[4]);
+            let o = run_one(&sc, spur, Box::new(Replay::new(ch)));
+            println!("{}", o.request);
+            println!("{}", o.expected);
+            println!("status {:?} steps={} preemptions={} choices={}", o.res.status, o.res.steps, o.res.preemptions, choices_str(&o.res.choice_list()));
+            for (k, t) in &o.violations {
+                println!("violation {} {}", k, t);
+            }
+            if args.get(5).map(|s| s.as_str()) == Some("-v") {
+                for e in &o.res.events {
+                    println!("  {} {} {} {:?} {:?}", e.tid, e.op, e.obj, e.rd, e.wr);
+                }
+            }
+        }
+        Some("dfs") if args.len() >= 6 => {
+            // h_c04 dfs <scenario> <preemption bound> <spurious budget> <cap>: size of one DFS (for choosing caps)
+            let sc = Arc::new(Scenario::parse(&args[2]).expect("scenario"));
+            let (bound, spur, cap): (usize, usize, usize) = (args[3].parse().unwrap(), args[4].parse().unwrap(), args[5].parse().unwrap());
+            let mut dfs = Dfs::new(bound);
+            let (mut runs, mut bad) = (0usize, 0usize);
+            let mut seen = HashSet::new();
+            let t0 = std::time::Instant::now();
+            while let Some(ch) = dfs.next() {
+                let o = run_one(&sc, spur, ch);
+                dfs.record(&o.res);
+                runs += 1;
+                seen.insert(fnv(&o.request));
+                if !o.violations.is_empty() {
+                    bad += 1;
+                    if bad <= 3 {
+                        println!("violation {} {} [choices {}]", o.violations[0].0, o.violations[0].1, choices_str(&o.res.choice_list()));
+                    }
+                }
+                if runs >= cap || bad >= 50 {
+                    break;
+                }
+            }
+            println!("schedules={} distinct={} violating={} exhaustive={} divergences={} seconds={:.1}", runs, seen.len(), bad, dfs.exhausted(), dfs.divergences, t0.elapsed().as_secs_f64());
+            std::process::exit(0);
+        }
+        Some("run") if args.len() >= 4 => {
+            let tier = args[2].clone();
+            let out = args[3].clone();
+            std::fs::create_dir_all(&out).unwrap();
+            let f = |n: &str| std::io::BufWriter::new(std::fs::File::create(format!("{}/{}", out, n)).unwrap());
+            let mut sink = Sink {
+                req: f("traces.req"),
+                exp: f("expected.resp"),
+                sch: f("sched.txt"),
+                vio: f("violations.jsonl"),
+                seen: HashSet::new(),
+                schedules: 0,
+                distinct: 0,
+                nontrivial: 0,
+                violations: 0,
+                violating_schedules: 0,
+                hist: BTreeMap::new(),
+                samples: Vec::new(),
+                max_events: 0,
+            };
+            let t0 = std::time::Instant::now();
+            // 1. corpus: schedules worth re-running first
+            if let Some(cf) = args.get(4) {
+                if let Ok(txt) = std::fs::read_to_string(cf) {
+                    for line in txt.lines() {
+                        let line = line.trim();
+                        if line.is_empty() || line.starts_with('#') {
+                            continue;
+                        }
+                        let p: Vec<&str> = line.split_whitespace().collect();
+                        if p.len() != 3 {
+                            continue;
+                        }
+                        if let Ok(sc) = Scenario::parse(p[0]) {
+                            let sc = Arc::new(sc);
+                            let spur = p[1].parse().unwrap_or(0);
+                            let o = run_one(&sc, spur, Box::new(Replay::new(parse_choices(p[2]))));
+                            sink.take(&sc, spur, "corpus", &o);
+                        }
+                    }
+                }
+            }
+            // 2. bounded DFS per scenario
+            let mut dfs_info = Vec::new();
+            for (txt, bound, spur, cap) in scenarios(&tier) {
+                let sc = Arc::new(Scenario::parse(txt).expect("built-in scenario"));
+                let mut dfs = Dfs::new(bound);
+                let mut runs = 0usize;
+                let v0 = sink.violating_schedules;
+                while let Some(ch) = dfs.next() {
+                    let o = run_one(&sc, spur, ch);
+                    dfs.record(&o.res);
+                    sink.take(&sc, spur, "dfs", &o);
+                    runs += 1;
+                    if runs >= cap || sink.violating_schedules - v0 >= 20 || sink.full() {
+                        break;
+                    }
+                }
+                if dfs.divergences > 0 {
+                    sink.bump("dfs_replay_divergences", dfs.divergences);
+                }
+                dfs_info.push(format!(
+                    "{{\"scenario\":{},\"preemption_bound\":{},\"spurious_budget\":{},\"schedules\":{},\"exhaustive\":{}}}",
+                    jstr(txt),
+                    bound,
+                    spur,
+                    runs,
+                    dfs.exhausted()
+                ));
+            }
+            // 3. seeded random schedules over random scenarios (PCT-style and uniform)
+            let mut rng = Rng::from_env();
+            let nrand = if tier == "quick" { 2000 } else { 40000 };
+            for i in 0..nrand {
+                if sink.full() {
+                    break;
+                }
+                let sc = Arc::new(random_scenario(&mut rng));
+                let spur = rng.below(3) as usize;
+                let seed = rng.next();
+                let ch: Box<dyn Chooser> = if i % 2 == 0 {
+                    Box::new(Pct::new(seed, 2 + (seed % 4) as usize, 60 + 40 * sc.scripts.len()))
+                } else {
+                    Box::new(Uniform::new(seed))
+                };
+                let o = run_one(&sc, spur, ch);
+                sink.take(&sc, spur, if i % 2 == 0 { "pct" } else { "uniform" }, &o);
+            }
+            sink.req.flush().unwrap();
+            sink.exp.flush().unwrap();
+            sink.sch.flush().unwrap();
+            sink.vio.flush().unwrap();
+            let secs = t0.elapsed().as_secs_f64();
+            let hist: Vec<String> = sink.hist.iter().map(|(k, v)| format!("{}:{}", jstr(k), v)).collect();
+            println!(
+                "{{\"schedules\":{},\"distinct_traces\":{},\"nontrivial\":{},\"violations\":{},\"violating_schedules\":{},\"cut_short\":{},\"max_events\":{},\"seconds\":{:.1},\"schedules_per_s\":{:.0},\"histogram\":{{{}}},\"dfs\":[{}],\"samples\":[{}]}}",
+                sink.schedules,
+                sink.distinct,
+                sink.nontrivial,
+                sink.violations,
+                sink.violating_schedules,
+                sink.full(),
+                sink.max_events,
+                secs,
+                sink.schedules as f64 / secs.max(0.001),
+                hist.join(","),
+                dfs_info.join(","),
+                sink.samples.join(",")
+            );
+            // leaked threads (parked for ever inside `safepoint_slow` of an aborted run) must not keep the process alive
+            std::process::exit(0);
+        }
+        _ => {
+            eprintln!("usage: h_c04 run <quick|thorough> <outdir> [corpus] | h_c04 replay <scenario> <spur> <choices|-> [-v]");
+            std::process::exit(2);
+        }
+    }
+}
